@@ -358,6 +358,51 @@ func runC12(p *core.Prog, r *core.Report, tier string) {
 	nI := checkDecodedCollections(p, r, ds, "C12.i", p.SrcFuncs(), func(rel string) bool { return strings.HasPrefix(rel, "services/blockrelay") })
 	r.Floor("C12.i decoded configuration entries dereferenced", nI, 4)
 
+	// (j) using the configuration does not alter it: the resolvers write nothing that is reached from the
+	// configuration object (the last good configuration stays as it was obtained)
+	nRes := 0
+	for _, rel := range []string{"services/blockrelay/v1", "services/blockrelay/v2"} {
+		for _, f := range p.FuncsIn(rel) {
+			if f.Name() != "ProposerConfig" || f.Signature.Recv() == nil || f.Parent() != nil || len(f.Params) == 0 {
+				continue
+			}
+			nRes++
+			ws := writesThrough(p, f, f.Params[0], 3, map[*ssa.Function]bool{})
+			if len(ws) == 0 {
+				r.Hold("C12.j", core.FnKey(f)+"|resolution-leaves-config-intact", p.Pos(f.Pos()), "the resolver writes nothing reached from the configuration")
+				continue
+			}
+			r.Violate("C12.j", core.FnKey(f)+"|resolution-leaves-config-intact", p.Pos(ws[0].Pos()), "resolving a validator's settings writes to the stored configuration (first write shown): later requests no longer see the configuration that was obtained, until the next successful refresh", p.WitnessText(ws)...)
+		}
+	}
+	r.Floor("C12.j configuration resolvers", nRes, 2)
+
+	// (k) a decoder's rejection is an error: errors.Wrap & co. of an error that is known to be nil return nil,
+	// so the malformed document would be accepted and replace the last good configuration
+	nWrap := 0
+	for _, f := range p.SrcFuncs() {
+		if !strings.HasPrefix(core.RelPkg(f.Pkg.Pkg.Path()), "services/blockrelay") {
+			continue
+		}
+		for _, ci := range core.Calls(f, func(c *ssa.CallCommon) bool {
+			n := core.CalleeName(c)
+			return strings.HasSuffix(n, "pkg/errors.Wrap") || strings.HasSuffix(n, "pkg/errors.Wrapf") || strings.HasSuffix(n, "pkg/errors.WithMessage") || strings.HasSuffix(n, "pkg/errors.WithMessagef") || strings.HasSuffix(n, "pkg/errors.WithStack")
+		}) {
+			e := ci.Common().Args[0]
+			nWrap++
+			if core.IsNilConst(e) {
+				r.Violate("C12.k", fmt.Sprintf("%s|wrap-of-nil#%d", core.FnKey(f), nWrap), p.Pos(ci.Pos()), "a nil error is wrapped: the result is nil, the failure is reported as success")
+				continue
+			}
+			in := ci.(ssa.Instruction)
+			tests := core.CountGuards(ds, f, core.NilGuard(ds, e))
+			knownNil := tests > 0 && core.Unguarded(ds, f, nil, func(x ssa.Instruction) bool { return x == in }, core.NilGuard(ds, e)) == nil
+			r.Check(!knownNil, "C12.k", fmt.Sprintf("%s|wrap-of-nil#%d", core.FnKey(f), nWrap), p.Pos(ci.Pos()), "the wrapped error is not known to be nil here",
+				"the error wrapped here ("+ds.D(e).String()+") is nil on every path that reaches this call (it was tested and the non-nil case left the function): the wrapper returns nil, so this rejection is reported as success and the malformed document is accepted")
+		}
+	}
+	r.Floor("C12.k wrapped errors in the configuration packages", nWrap, 10)
+
 	if tier == "thorough" {
 		// generalised sweep: pairing + re-entrancy over the whole repository (observations only outside the package)
 		n := 0
